@@ -1284,6 +1284,67 @@ fn c16_case(ctx: &mut Ctx, d: &Desc) {
   if let Some((ok, why)) = &run.auto_ok {
     ctx.s("C16.auto", *ok, "auto/explicit-call", &format!("{} {}", why, det));
   }
+  // an explicitly configured poling period: magnitude |P|, sign derived (never the configured sign)
+  if let PolingD::Cfg { period: AutoV::Val(p_um), .. } = &d.poling {
+    let signed = |x: &SPDC| match &x.pp {
+      PeriodicPoling::On { period, sign, .. } => Some(if *sign == Sign::NEGATIVE { -period.value_unsafe } else { period.value_unsafe }),
+      PeriodicPoling::Off => None,
+    };
+    let got = signed(&s);
+    let derived = guard(|| PeriodicPoling::compute_sign(&s.signal, &s.pump, &s.crystal_setup));
+    let want = derived.map(|sg| if sg == Sign::NEGATIVE { -(p_um.abs() * 1e-6) } else { p_um.abs() * 1e-6 });
+    let ok = match (got, want) {
+      (Some(g), Some(w)) => g.signum() == w.signum() && (g - w).abs() <= 1e-12 * w.abs(),
+      _ => false,
+    };
+    ctx.s(
+      "C16.auto",
+      ok,
+      "poling/explicit-period-sign-derived",
+      &format!("configured_um={:?} constructed_signed_m={:?} derived_signed_m={:?} {}", p_um, got, want, det),
+    );
+    // the same through the setup's own helper
+    let via = guard(|| signed(&s.clone().with_poling_period(p_um.abs() * MICRO * M))).flatten();
+    ctx.s(
+      "C16.auto",
+      via.is_some() && via.map(|v| v.signum()) == got.map(|g| g.signum()) && via.zip(got).map(|(a, b)| (a - b).abs() <= 1e-12 * b.abs()).unwrap_or(false),
+      "poling/explicit-period=with_poling_period",
+      &format!("constructed_signed_m={:?} with_poling_period_m={:?} {}", got, via, det),
+    );
+    // +P and -P describe the same setup
+    let mut e = d.clone();
+    if let PolingD::Cfg { period, .. } = &mut e.poling {
+      *period = AutoV::Val(-*p_um);
+    }
+    let other = guard(|| SPDC::from_json(e.json().to_string()).ok()).flatten();
+    ctx.s(
+      "C16.auto",
+      other.as_ref() == Some(&s),
+      "poling/plus-minus-period-same-setup",
+      &format!("configured_um={:?} other_signed_m={:?} this_signed_m={:?} {}", p_um, other.as_ref().and_then(|o| signed(o)), got, det),
+    );
+    // the back-converted period is |P| rounded, and the second conversion keeps the signed period
+    if let Some(c) = guard(|| s.clone().as_config()) {
+      let back = match &c.periodic_poling {
+        PeriodicPolingConfig::Config { poling_period_um: AutoCalcParam::Param(x), .. } => Some(*x),
+        _ => None,
+      };
+      let want_um = (p_um.abs() * 1e4).round() / 1e4;
+      ctx.s(
+        "C16.fields",
+        back == Some(want_um) || back.map(|b| (b - p_um.abs()).abs() <= 0.5e-4 * (1.0 + 1e-6) && (b * 1e4).round() / 1e4 == b).unwrap_or(false),
+        "as_config/poling-period-magnitude",
+        &format!("configured_um={:?} back_um={:?} {}", p_um, back, det),
+      );
+      let s2 = guard(|| c.clone().try_as_spdc().ok()).flatten();
+      let g2 = s2.as_ref().and_then(|x| signed(x));
+      let ok2 = match (got, g2) {
+        (Some(a), Some(b)) => a.signum() == b.signum() && (a - b).abs() <= 1e-4 * 1e-6 + 1e-9 * a.abs(),
+        _ => false,
+      };
+      ctx.s("C16.fixpoint", ok2, "roundtrip/signed-period", &format!("first_signed_m={:?} second_signed_m={:?} {}", got, g2, det));
+    }
+  }
   // fields rounded to 4 decimals in config units
   let c1 = match guard(|| s.clone().as_config()) {
     Some(c) => c,
@@ -1707,6 +1768,41 @@ pub fn run(ctx: &mut Ctx) {
         d.idler = IdlerD::Auto;
         d.poling = PolingD::Cfg { period: if auto { AutoV::Auto } else { AutoV::Val(46.5) }, apod: a.clone() };
         c16_case(ctx, &d);
+      }
+    }
+    // explicit periods of both signs on setups whose phase mismatch asks for either sign:
+    // types 0/1/2, 0° and 90° cuts, counter-propagation on/off
+    let setups: [(usize, usize, &str, f64, f64); 8] = [
+      (1, 1, "e->ee", 775., 1550.),        // KTP type 0
+      (1, 0, "o->oo", 775., 1550.),        // KTP type 0
+      (3, 1, "Type0_e_ee", 532., 1064.),   // LiNbO3 type 0
+      (1, 3, "e->eo", 775., 1550.),        // KTP type 2
+      (1, 4, "e->oe", 775., 1550.),        // KTP type 2
+      (0, 3, "e->eo", 405., 810.),         // BBO type 2
+      (0, 2, "e->oo", 405., 810.),         // BBO type 1
+      (4, 2, "Type1_e_oo", 532., 1064.),   // LiNb:MgO type 1
+    ];
+    for (kind, pm, spelling, lp, ls) in setups.iter() {
+      for theta in [0.0, 90.0, 30.5] {
+        for cp in [None, Some(true)] {
+          for period in [9.25, -9.25, 46.5, -46.5] {
+            let mut d = gen_valid(&mut ctx.rng);
+            d.kind = *kind;
+            d.pm = *pm;
+            d.pm_spelling = spelling.to_string();
+            d.c_phi = Some(0.);
+            d.c_theta = AutoV::Val(theta);
+            d.cp = cp;
+            d.length = 10000.;
+            d.p_wl = *lp;
+            d.signal.wl = *ls;
+            d.signal.theta = Some(0.);
+            d.signal.theta_e = None;
+            d.idler = IdlerD::Auto;
+            d.poling = PolingD::Cfg { period: AutoV::Val(period), apod: None };
+            c16_case(ctx, &d);
+          }
+        }
       }
     }
     // boundary: azimuths that round up to 360.0000
